@@ -458,6 +458,24 @@ pub fn run(cfg: &Cfg, rep: &mut Report) {
             ctx.parse("diverging-branch-narrowing", src, false);
         }
     }
+    // (k) a construct that introduces a name, with that name used where it is not (yet) in scope, with and without an
+    // outer variable of that name (of the same and of another type)
+    if cfg.shard == 1 % cfg.nshards {
+        let forms = [
+            "if v: int = v { v }", "if v: int = v + 1 { v } else { 0 }", "while v: int = v { break }", "while v: string = v + 1 { break }", "v := v", "v := v + 1", "(v, w) := (w, v)",
+            "for v in v { v }", "for v in [v]~ { v }", "v := (x: int) -> int { return w }", "match v { v: int => v, => 0, }", "match 1 { v => 1, => 0, }", "v := mod { a := v }",
+            "v := { v }", "v := if true { v } else { 0 }", "v := [v; 2]", "v := struct{a := v}", "v := mut v", "v = 1", "v += 1", "*v", "v()", "v.0", "v[0]", "v~", "v ? int",
+            "f := (v: int) -> int { if v: string = v { return 1 } return v }", "f := (v: int) -> any { v := v; return v }", "if v: int = (if w: int = v { w } else { 0 }) { v }",
+        ];
+        let outers = ["", "v := 1.5; ", "v := 1; ", "v := \"s\"; w := 2; ", "v := mut 5; ", "v := [1]~; ", "v := (1, 2); w := 1; ", "c := mut 5; v := c; "];
+        for outer in outers {
+            for form in forms {
+                ctx.parse("name-used-in-its-own-binder", &format!("{outer}{form}"), false);
+                ctx.parse("name-used-in-its-own-binder", &format!("{outer}g := () -> any {{ {form}; return 0 }}; g()"), false);
+                ctx.parse("name-used-in-its-own-binder", &format!("{outer}loop {{ {form}; break }}"), false);
+            }
+        }
+    }
     // (d) checklist + imports (every shard: cheap)
     if cfg.shard == 0 {
         let mut accepted = 0;
@@ -496,6 +514,21 @@ pub fn run(cfg: &Cfg, rep: &mut Report) {
                 let r = ctx.parse("import", &src, false);
                 ctx.rep.shape("import_cases", &format!("{label}:{}", ["syntax-error", "checker-error", "accepted", "panic"][r as usize]));
             }
+        }
+        // a file that reads names of the importing scope, imported more than once from scopes that differ in them
+        let uses = w("uses.ssl", b"twice := n * 2; tag := s + \"!\"");
+        for src in [
+            format!("n := 1; s := \"a\"; a := import \"{uses}\"; b := import \"{uses}\"; (a, b)"),
+            format!("n := 1; s := \"a\"; a := import \"{uses}\"; f := (n: string) -> any {{ return import \"{uses}\" }}; f(\"x\")"),
+            format!("n := 1; s := \"a\"; a := import \"{uses}\"; f := (q: int) -> any {{ n := \"ab\"; return import \"{uses}\" }}; f(1)"),
+            format!("f := (n: int, s: string) -> any {{ return import \"{uses}\" }}; g := (n: float, s: string) -> any {{ return import \"{uses}\" }}; (f(1, \"a\"), g(1.5, \"b\"))"),
+            format!("n := 1; s := \"a\"; a := import \"{uses}\"; {{ s := 5; b := import \"{uses}\" }}"),
+            format!("a := import \"{uses}\"; n := 1; s := \"a\"; b := import \"{uses}\"; b"),
+            format!("n := 1; s := \"a\"; m := mod {{ x := import \"{uses}\" }}; k := (s: int) -> any {{ return import \"{uses}\" }}; k(2)"),
+            format!("n := 2; s := \"a\"; a := import \"{uses}\"; n := 10; b := import \"{uses}\"; (a.twice, b.twice)"),
+        ] {
+            let r = ctx.parse("import-twice", &src, false);
+            ctx.rep.shape("import_cases", &format!("twice:{}", ["syntax-error", "checker-error", "accepted", "panic"][r as usize]));
         }
         let _ = std::fs::remove_dir_all(&d);
     }
